@@ -271,6 +271,11 @@ def _generate_mask(vertices, x, y):
             raise Exception('attempted to convert array to genuine numpy array with known methods.  Please make a PR to prysm with a mechanism to convert this data type to real numpy. failed with '+prev)  # NOQA
 
     xxyy = truenp.stack((xx, yy), axis=2)
+    if len(vertices) < 4:
+        # qhull needs at least 4 points to triangulate in 2D; the centroid is
+        # interior to the convex polygon, so adding it does not change the fill
+        vertices = truenp.vstack((vertices, vertices.mean(axis=0)))
+
     # use delaunay to fill from the vertices and produce a mask
     triangles = spatial.Delaunay(vertices, qhull_options='QJ Qf')
     mask = ~(triangles.find_simplex(xxyy) < 0)
